@@ -27,7 +27,8 @@ HARNESSES = [
     H("c20_f64_pos_inf", "f64::INFINITY.lexical_form() == \"INF\"", complete=False, bound="representative value +inf", timeout=600),
     H("c20_f64_neg_inf", "f64::NEG_INFINITY.lexical_form() == \"-INF\"", complete=False, bound="representative value -inf", timeout=600),
     H("c20_f64_nan", "f64::NAN.lexical_form() == \"NaN\"", complete=False, bound="representative value NaN (one payload)", timeout=600),
-    H("c20_isize_lexical_form", "for all isize x: lexical form in xsd:integer, <= 20 bytes", complete=True, tiers=("thorough",), timeout=3000),
+    # c20_isize_lexical_form exists in the overlay but is not run: it needs ~11 min and sometimes more than 24 GB
+    # (measured: ok in 665 s once, out of memory once); usize covers the 20-digit formatting path
     H("c20_usize_lexical_form", "for all usize x: lexical form in xsd:integer, <= 20 bytes", complete=True, tiers=("thorough",), timeout=3000),
 ]
 
@@ -47,7 +48,7 @@ def run(rep):
         for h, r in failed:
             rep.violation("kani:sophia_api::" + h.name, kani_unit.describe_failure(r), witness=witness,
                           replay_text="./check C20 --replay <this file>   # replay_src/c20 on the real sophia_api", confirmed=confirmed)
-    rep.not_covered += ["finite f64 values (shortest round-trip formatting / dec2flt): out of CBMC's reach",
+    rep.not_covered += ["finite f64 values (shortest round-trip formatting / dec2flt): out of CBMC's reach", "isize full-domain lexical space (CBMC memory; usize and i32 are covered)",
                         "full-domain 'lexical form denotes x' / round trip parse(format(x)) == x (CBMC does not finish: > 50 min); proved: lexical space for every value; denotation only at the extremes, zero and |x| < 100",
                         "try_from_term on arbitrary lexical forms of the whitelisted datatypes"]
 
